@@ -61,8 +61,11 @@ ASSUMPTIONS = [
     'compared at 1e-6 (scale-aware), Debye included (reference Debye integrals by 40-point '
     'Gauss-Legendre)',
     'q is compared with a closed form only for HarmonicVib, linear/nonlinear RigidRotor and '
-    '3-D FreeTrans; S of 1-/2-D translation has no textbook Sackur-Tetrode form and gets the '
-    'relational clauses only; QRRHOVib.get_q is documented as not implemented and is not called',
+    'FreeTrans; for 1-/2-D translation S and q are compared with the n-dimensional form of the '
+    'Sackur-Tetrode equation that follows from the q the FreeTrans docstring defines for every n '
+    '(S/R = ln q + 1 + n/2) -- a deviation from DESIGN.md R7, which left them relational-only: a '
+    'constant shift of S for n<3 is invisible to R1-R6; QRRHOVib.get_q is documented as not '
+    'implemented and is not called',
     'LSR electronic model: relational clauses only; ConstantMode misc models: additivity (R6) only',
     'get_EoRT(include_ZPE=True) on a species whose vibrational slot has no ZPE is only evaluated '
     'with raise_error=False (raise_error=True documents an AttributeError)',
@@ -547,6 +550,8 @@ def relational(ctx, get, mech0, conds, interval, Ppair, has_trans, r5=True, tr=N
 def closed_forms(ctx, obj, m, conds, include_ZPE, mech0):
     """R7 on one mode object against the reference of its (current) spec."""
     cname = _cls_of(m)
+    if cname == 'FreeTrans':
+        mech0 = dict(mech0, n_degrees=m['n_degrees'])
     for T, P in conds:
         want = ref.mode_reference(m, T, P, include_ZPE)
         if want is None:
